@@ -713,4 +713,66 @@ theorem runGuarded_exit (place : RestorePlace) (f forced : String) (body : State
   cases place <;> cases h : (body (update st f forced)).2 <;> simp [h]
 
 
+
+/-- every cached hit is what the mapping says -/
+def CacheOk (m : Nat → Option Nat) (c : FindCache) : Prop := ∀ k v, cget c k = some (some v) → m k = some v
+
+theorem cget_cons (c : FindCache) (k k' : Nat) (x : Option Nat) :
+    cget ((k', x) :: c) k = if k' = k then some x else cget c k := by
+  unfold cget
+  simp only [List.find?_cons]
+  cases h : (k' == k)
+  · have : ¬ k' = k := by simpa using h
+    simp [this]
+  · have : k' = k := by simpa using h
+    simp [this]
+
+theorem cacheOk_nil (m : Nat → Option Nat) : CacheOk m [] := by
+  intro k v h; simp [cget] at h
+
+theorem crecompute_ok {m : Nat → Option Nat} {c : FindCache} (h : CacheOk m c) (k : Nat) (strict : Bool) :
+    CacheOk m (crecompute m c k strict).2 ∧ (crecompute m c k strict).1 = resolve m strict k := by
+  unfold crecompute
+  cases hr : resolve m strict k with
+  | found v =>
+    refine ⟨?_, rfl⟩
+    intro k' v' hv
+    simp only [cget_cons] at hv
+    split at hv
+    · next e =>
+      cases hv; subst e
+      unfold resolve at hr
+      cases hm : m k with
+      | some w => simp [hm] at hr; rw [hr]
+      | none => simp [hm] at hr; split at hr <;> cases hr
+    · exact h k' v' hv
+  | missing =>
+    refine ⟨?_, rfl⟩
+    intro k' v' hv
+    simp only [cget_cons] at hv
+    split at hv
+    · cases hv
+    · exact h k' v' hv
+  | raised => exact ⟨h, rfl⟩
+
+theorem cfind_ok {m : Nat → Option Nat} {c : FindCache} (h : CacheOk m c) (k : Nat) (strict : Bool) :
+    CacheOk m (cfind false m c k strict).2 ∧ (cfind false m c k strict).1 = resolve m strict k := by
+  unfold cfind
+  cases hg : cget c k with
+  | none => exact crecompute_ok h k strict
+  | some x =>
+    cases x with
+    | none => simpa using crecompute_ok h k strict
+    | some v =>
+      refine ⟨h, ?_⟩
+      have := h k v hg
+      simp [resolve, this]
+
+theorem runFinds_ok {m : Nat → Option Nat} {c : FindCache} (h : CacheOk m c) (hist : List (Nat × Bool)) :
+    CacheOk m (runFinds false m c hist) := by
+  induction hist generalizing c with
+  | nil => exact h
+  | cons x rest ih => obtain ⟨k, s⟩ := x; exact ih (cfind_ok h k s).1
+
+
 end SqlglotModel.Determinism
